@@ -300,14 +300,16 @@ class RBFEvaluator(FuncEvaluator, XCEvalSerializable):
         if isinstance(kernel, SubsetRBF):
             if isinstance(kernel.indexes, slice):
                 i = kernel.indexes
-                start = i.start
+                start = i.start if i.start is not None else 0
                 step = i.step if i.step is not None else 1
                 stop = (
                     i.stop
                     if i.stop is not None
-                    else (len(kernel.length_scale) + i.start) // step
+                    else start + step * len(kernel.length_scale)
                 )
                 indexes = [i for i in range(start, stop, step)]
+            else:
+                indexes = kernel.indexes
             indexes = np.array(indexes, dtype=np.int32)
         else:
             indexes = np.arange(len(kernel.length_scale), dtype=np.int32)
